@@ -492,6 +492,13 @@ impl Property for C12 {
         stats.extra.push(("realworld_note".into(), J::str("release binary `hyeong --color never` (interactive interpreter) with the lines on a real pipe in planned write sizes, same transcript walk and exit status; no SIGINT in RealWorld")));
         bad
     }
+    fn replay_real(&self, sc: &Scenario) -> Option<Violation> {
+        self.run_mode(sc, true).violation.map(|mut v| {
+            v.world = "real";
+            v.clause = format!("real-{}", v.clause);
+            v
+        })
+    }
     fn components(&self) -> J {
         J::obj()
             .set("real", J::str("app::interpreter::run (persistent state across lines, per-line capture/flush, clear/help/exit), parse::parse per line, execute::execute, UnOptState, io::read_line_from via the stdin hook, io::handle"))
